@@ -16,7 +16,13 @@ with tempfile.TemporaryDirectory() as td:
     env.pop("INFRETIS_VERIF", None)
     cmd = ["/venv/bin/python", "-m", "pytest", "-ra", "-q", "-p", "no:cacheprovider", "--timeout=900",
            "--continue-on-collection-errors", f"--junitxml={xml}"]
-    proc = subprocess.run(cmd, cwd=repo, env=env, stdout=subprocess.PIPE, stderr=subprocess.STDOUT, text=True)
+    try:
+        proc = subprocess.run(cmd, cwd=repo, env=env, stdout=subprocess.PIPE, stderr=subprocess.STDOUT, text=True,
+                              timeout=float(os.environ.get("VERIF_BASELINE_TIMEOUT", "2400")), start_new_session=True)
+    except subprocess.TimeoutExpired as exc:
+        # the repository's suite occasionally hangs in a forked pool worker on a loaded machine
+        print("baseline: TIMEOUT (pytest did not finish); re-run")
+        sys.exit(3)
     passed = set()
     for tc in ET.parse(xml).getroot().iter("testcase"):
         if not any(ch.tag in ("failure", "error", "skipped") for ch in tc):
